@@ -115,14 +115,15 @@ def quoteBytes (s : Bytes) : R Bytes := do
 
 def int64Str (v : Int64) : String := toString v.toInt
 
-/-- `strconv.FormatFloat(f, 'f', -1, 64)`: modelled for integral values below 2^53 only -/
+/-- `Float.Inspect`: `strconv.FormatFloat(f, 'f', -1, 64)`, plus `.0` when that text is an integer
+literal (C14 fix: it then reads back as a float); modelled for integral values below 2^53 only -/
 def floatStr (bits : UInt64) : R String :=
   let f := f64 bits
   if f.isNaN then pure "NaN"
   else if f.isInf then pure (if f > 0 then "+Inf" else "-Inf")
   else if f == f.floor && f.abs < 9007199254740992.0 then
     let i := f.toInt64
-    if i == 0 && bits != 0 then pure "-0" else pure (int64Str i)
+    if i == 0 && bits != 0 then pure "-0.0" else pure (int64Str i ++ ".0")
   else throw (.unmodelled "FormatFloat of non-integral float")
 
 mutual
